@@ -22,6 +22,8 @@ type FuncInfo struct {
 }
 
 type Engine struct {
+	effApprox map[*types.Func]map[string]bool // effects of functions on a recursive cycle: current approximation
+	effCycle  bool                               // an approximation was used since this flag was last cleared
 	repo      string
 	fset      *token.FileSet
 	pkgs      map[string]*packages.Package // by path
